@@ -123,7 +123,7 @@ def run(rep, tier, seed, selftest):
         rep.note_drift("codes documented but never produced: %s" % [letter(c) for c in stale])
     # ---------------------------------------------------------------- 2. locations and rendering
     prefix = os.path.join(common.WORK, "pipeline-c13-%d" % pid)
-    files, nruns = pc.split_events(p["events"], prefix + "-loc", parts=12, transform=diag_trace)
+    files, nruns = pc.split_events(p["events"], prefix + "-loc", parts=max(12, meta["events"] // 80000), transform=diag_trace)
     results = pc.validate_traces("Trace_Diagnostics", cfg_tr, files, parallel=6)
     rejected = {}
     notes = {"col": 0, "render-not-clean": 0}
@@ -324,7 +324,10 @@ def selftests(loc_files, cfg_tr, det_files, documented, producible, pid):
 
         variant("wrong_line", lambda e: e.update(line=e["line"] + 1))
         variant("span_outside_file", lambda e: e.update(end=10 ** 7))
-        variant("render_failure", lambda e: e["render"][1].update(status="err") if e.get("render") else e.update(render=[{"status": "err", "has_code": True, "color": False, "ascii": True, "esc": False, "foreign": ""}]))
+        def break_render(e):
+            e.pop("r4", None)
+            e["render"] = [{"status": "err", "has_code": True, "color": False, "ascii": True, "esc": False, "foreign": ""}]
+        variant("render_failure", break_render)
         variant("unknown_file", lambda e: e.update(file="other.pn"))
     res = pc.validate_traces("Trace_Diagnostics", cfg_tr, [p for _, p, _ in tests], parallel=4) if tests else []
     by = {r["file"]: r for r in res}
